@@ -32,3 +32,30 @@ func VerifSimShutdown() {
 		PurgeLocal(id)
 	}
 }
+
+// VerifSimNode is the per-node part of this package's state (several simulated server
+// nodes share one process; the scheduler swaps it in and out on a node switch).
+type VerifSimNode struct {
+	list    map[int]Cache
+	running map[int]bool
+}
+
+func VerifSimNewNode() *VerifSimNode {
+	return &VerifSimNode{list: map[int]Cache{}, running: map[int]bool{}}
+}
+
+// VerifSimSwitch saves the live state into from and installs to.
+func VerifSimSwitch(from, to *VerifSimNode) {
+	from.list, from.running = cacheList, expirationThreadRunning
+	cacheList, expirationThreadRunning = to.list, to.running
+}
+
+// VerifSimHas reports, without sliding the expiry, whether the live state holds the entry.
+func VerifSimHas(id int, key any) bool {
+	c, ok := cacheList[id]
+	if !ok {
+		return false
+	}
+	_, ok = c.Items[key]
+	return ok
+}
